@@ -154,7 +154,7 @@ def read_all_unit(key, bank, use_latch, aname, amk, device):
     def inv(lc):
         u = cur["u"]
         env = lc.env
-        rd = env.locals["raw_data"]
+        rd = lc.get("acc")
         k = lc.k
         conds = []
         if isinstance(rd, SymList):
@@ -187,13 +187,14 @@ def read_all_unit(key, bank, use_latch, aname, amk, device):
         u = cur["u"]
         k = lc.k
         sl = SymList(k, expected)
-        lc.env.locals["raw_data"] = sl
+        lc.set("acc", sl)
         u.dtr0 = k
         taking = bool(use_latch and bank.has_latch)
         u.we = And(taking, k == start)
         cur["h"].trace = []
 
-    loops = {(READ_ALL_KEY, 0): LoopSpec("read-locations", inv, havoc, ghost_init=ghost_init)}
+    loops = {(READ_ALL_KEY, 0): LoopSpec("read-locations", inv, havoc, ghost_init=ghost_init,
+                                            roles={"acc": ("raw_data", lambda v: isinstance(v, list))})}
 
     def runner(ctx, interp, fn):
         addr = amk(ctx)
